@@ -87,8 +87,39 @@ class _Canon(ast.NodeTransformer):
             self.stats['canon_commute'] = self.stats.get('canon_commute', 0) + 1
         return n
 
+    def visit_If(self, n):
+        self.generic_visit(n)
+        # if not c: A else: B   ->   if c: B else: A     (an elif chain in the else arm is left alone)
+        if isinstance(n.test, ast.UnaryOp) and isinstance(n.test.op, ast.Not) and n.orelse \
+                and not (len(n.orelse) == 1 and isinstance(n.orelse[0], ast.If)):
+            n.test = n.test.operand
+            n.body, n.orelse = n.orelse, n.body
+            self.stats['canon_if_not_else'] = self.stats.get('canon_if_not_else', 0) + 1
+        return n
+
+    def _iter_keys(self, it):
+        # iterating d.keys() is iterating d
+        if isinstance(it, ast.Call) and isinstance(it.func, ast.Attribute) and it.func.attr == 'keys' and not it.args and not it.keywords:
+            self.stats['canon_iter_keys'] = self.stats.get('canon_iter_keys', 0) + 1
+            return it.func.value
+        return it
+
+    def visit_For(self, n):
+        self.generic_visit(n)
+        n.iter = self._iter_keys(n.iter)
+        return n
+
+    def visit_comprehension(self, n):
+        self.generic_visit(n)
+        n.iter = self._iter_keys(n.iter)
+        return n
+
     def visit_Compare(self, n):
         self.generic_visit(n)
+        if len(n.ops) == 1 and isinstance(n.ops[0], (ast.In, ast.NotIn)) and isinstance(n.comparators[0], ast.Call) \
+                and isinstance(n.comparators[0].func, ast.Attribute) and n.comparators[0].func.attr == 'keys' \
+                and not n.comparators[0].args:
+            n.comparators[0] = n.comparators[0].func.value
         if len(n.ops) == 1 and isinstance(n.ops[0], (ast.In, ast.NotIn)) and isinstance(n.comparators[0], (ast.Tuple, ast.List)):
             t = n.comparators[0]
             if t.elts and all(isinstance(e, ast.Constant) and type(e.value) is str for e in t.elts):
